@@ -321,6 +321,14 @@ Inductive front :=
 | FPlain (dir : path) (cap : N)
 | FSharded (dir : path) (nshards total : N).
 
+(** CacheBuilder::writer and ReadOnlyCacheBuilder::cache / CacheBuilder::reader: the strategy
+    is chosen by the shard count alone (plain for at most one shard, sharded otherwise). *)
+Definition builder_writer (dir : path) (nshards total : N) : front :=
+  if (nshards <=? 1)%N then FPlain dir total else FSharded dir nshards total.
+
+Definition builder_reader (dir : path) (nshards : N) : front :=
+  builder_writer dir nshards 18446744073709551615%N.
+
 Definition plain_cdir (dir : path) (cap : N) : cdir :=
   mkCdir dir cap (weight (plain_period cap Constants.PLAIN_MAINTENANCE_SCALE) 1).
 
